@@ -94,6 +94,22 @@ ValidityMonotone == [][S.st.valid' => S.st.valid]_tvars
 CountsMonotone == [][S.st.matchCount' >= S.st.matchCount /\ S.st.scanCount' >= S.st.scanCount]_tvars
 MatchLeScan == S.st.matchCount <= S.st.scanCount
 NothingAfterStop == [][(S.pc = "done") => (S' = S)]_tvars
+\* C13: an advanced line passes without matching, counting as a match or causing any side effect
+AdvanceInert == [][(S' # S /\ S'.kind = "advance") =>
+                     /\ S'.st.vars = S.st.vars /\ S'.st.printed = S.st.printed /\ S'.st.valid = S.st.valid
+                     /\ S'.st.matchCount = S.st.matchCount
+                     /\ (S'.returned = S.returned \/ Case.cfg.noMatches)   \* not a match: returned only by return-mode no-matches
+                     /\ S'.st.advance = S.st.advance - 1 /\ S'.st.scanCount = S.st.scanCount + 1]_tvars
+\* C02: a blank or unscanned record changes nothing at all
+UnofferedInert == [][(S' # S /\ S'.kind \in {"blank", "unscanned"}) =>
+                       /\ [S'.st EXCEPT !.frozen = S.st.frozen] = S.st      \* (the end of the run freezes the path)
+                       /\ S'.returned = S.returned]_tvars
+\* C13: once stopped, the run is over
+StoppedIsFinal == S.st.stopped => S.pc = "done"
+\* C15: with unmatched-mode keep while collecting, returned and unmatched partition the records read
+Partition == (Case.cfg.collecting /\ Case.cfg.keepUnmatched) =>
+               /\ Len(S.returned) + Len(S.unmatched) = S.k
+               /\ \A a \in 1..Len(S.returned) : \A b \in 1..Len(S.unmatched) : S.returned[a] # S.unmatched[b]
 
 \* ---- verdict emission --------------------------------------------------------------------------
 Emit == verdict # "run" =>
